@@ -60,8 +60,9 @@ int poll_set_new_evt(poll_priv_t *priv, ev_src_t *tmp, const enum op_type flag) 
         ret = 0;
     }
 
-    /* Eventually free epoll data if needed */
-    if (flag == RM) {
+    /* Eventually free epoll data if needed; same if src could not be added */
+    if (flag == RM || ret != 0) {
+        const int err = errno;
         memhook._free(tmp->ev);
         tmp->ev = NULL;
         
@@ -77,6 +78,7 @@ int poll_set_new_evt(poll_priv_t *priv, ev_src_t *tmp, const enum op_type flag) 
              */
             tmp->fd_src.fd = -1;
         }
+        errno = err;
     }
     
     return ret;
